@@ -11,8 +11,10 @@
 (*             verifying party).  The verdict is TRUE exactly on the diagonal of the parameter    *)
 (*             matrix and only while nothing was tampered with.                                   *)
 (*                                                                                                *)
-(* Parties: "spsdk" (the library under test), "cli" (the same through `nxpcrypto key convert /    *)
-(* signature create / signature verify`, i.e. PlainFileSP + SignatureProvider.get_signature),     *)
+(* Parties: "spsdk" (the library under test, key objects), "sp" (the library's signature provider *)
+(* on a private-key FILE: get_signature_provider -> InteractivePlainFileSP / PlainFileSP ->        *)
+(* SignatureProvider.get_signature), "cli" (the same through `nxpcrypto key convert / signature    *)
+(* create / signature verify`),                                                                    *)
 (* "indep" (`cryptography` called directly with the standard parameters), "pure" (pure-Python     *)
 (* verification on integers, hashlib).  The spec does not distinguish them: that every party      *)
 (* gives the same answer IS the requirement.  The command line has no option for pre-hashed data, *)
@@ -70,7 +72,18 @@ ExpLens(kt, fmt) == IF kt = "rsa" /\ fmt = "NXP" THEN {3, 4} ELSE {0}           
 Entries == {"typed", "auto", "any", "file", "cli"}    \* PublicKeyEcc.parse | PublicKey.parse | extract_public_key_from_data | save + load | nxpcrypto key convert
 Exporters == {"spsdk", "indep", "cli"}
 Parsers == {"spsdk", "indep"}
-Signers == {"spsdk", "indep", "cli"}
+Signers == {"spsdk", "sp", "indep", "cli"}
+\* ---- how the key reaches the signer ("private keys with or without a password").  A party that signs from a private-key FILE
+\* ("sp", "cli") finds the file open (no password needed) or encrypted; the password of an encrypted file is handed over up front -
+\* as an argument (password= / --password) or inside the provider configuration string (type=file;file_path=..;password=..) - or
+\* it is TYPED at the interactive prompt after the signer found the file encrypted (one prompt, then the key is loaded again).
+\* The source of the password is NOT a signing parameter: the signature made is the one that was asked for, whichever way the key
+\* was opened (SourceIsNoParameter).  Parties that sign with a key object they hold have nothing to open: "obj".
+FileSigners == {"sp", "cli"}
+FileSources == {"open", "arg", "cfg", "prompt"}
+PwSources == {"obj"} \cup FileSources
+SrcOf(by) == IF by \in FileSigners THEN FileSources ELSE {"obj"}
+NeedsPassword(src) == src \in {"arg", "cfg", "prompt"}
 Verifiers == {"spsdk", "indep", "pure", "cli"}
 Tampers == {"sigbit", "msgbit", "msg", "key"}
 Vias == {"sigclass", "serialize", "provider", "indep"}   \* ECDSASignature parse+export | KeyEccCommon.serialize_signature | SignatureProvider.get_signature | pure Python
@@ -111,11 +124,12 @@ ToPublic == /\ obj.flow = "key" /\ obj.form = "object" /\ obj.kk = "priv"
             /\ obj' = [obj EXCEPT !.kk = "pub"] /\ act' = [a |-> "ToPublic"]
 
 \* ------------------------------------------------------------------ signature flow
-Sign(P, by) ==
+Sign(P, by, src) ==
   /\ obj.flow = "sig" /\ obj.form = "none"
-  /\ P \in SignParams(obj.kt) /\ by \in Signers /\ (by = "indep" => P.hash # "default") /\ (by = "cli" => ~P.pre)
+  /\ P \in SignParams(obj.kt) /\ by \in Signers /\ (by = "indep" => P.hash # "default") /\ (by \in FileSigners => ~P.pre)
+  /\ src \in SrcOf(by)
   /\ obj' = [obj EXCEPT !.form = "sig", !.hash = Eff(P.hash, obj.dflt), !.pad = P.pad, !.enc = P.enc]
-  /\ act' = [a |-> "Sign", P |-> P, by |-> by]
+  /\ act' = [a |-> "Sign", P |-> P, by |-> by, src |-> src]
 \* raw <-> DER: lossless, so neither the scheme nor `intact` changes.  "serialize" knows DER -> raw only.
 Reencode(to, via) ==
   /\ obj.flow = "sig" /\ obj.form = "sig" /\ obj.kt = "ecc" /\ ~obj.sigmod
@@ -135,7 +149,7 @@ Verify(Q, by) ==
 DoExport == \E fmt \in {"PEM", "DER", "NXP"}, pwd \in {"none"} \cup PwClasses, el \in {0, 3, 4}, by \in Exporters : Export(fmt, pwd, el, by)
 DoParse == \E entry \in Entries, given \in {"none", "wrong"} \cup PwClasses, by \in Parsers : Parse(entry, given, by)
 DoToPublic == ToPublic
-DoSign == \E P \in SignParams(obj.kt), by \in Signers : Sign(P, by)
+DoSign == \E P \in SignParams(obj.kt), by \in Signers, src \in PwSources : Sign(P, by, src)
 DoReencode == \E to \in {"raw", "der"}, via \in Vias : Reencode(to, via)
 DoTamper == \E what \in Tampers : Tamper(what)
 DoVerify == \E Q \in VerParams(obj.kt), by \in Verifiers : Verify(Q, by)
@@ -160,6 +174,15 @@ ASSUME NearSane
 \* and whatever the encoding of the signature is at that moment
 OnlyDiagonalVerifies == [][act'.a = "Verify" =>
                              (act'.res <=> (obj.intact /\ obj.hash = Eff(act'.Q.hash, obj.dflt) /\ obj.pad = act'.Q.pad))]_vars
+\* the way the key was opened (no password needed, password given up front, password typed at the prompt) is no parameter of the
+\* signature: what has been made commits to exactly the requested hash and padding, in the requested encoding, for EVERY source
+SourceIsNoParameter == [][act'.a = "Sign" => /\ act'.src \in SrcOf(act'.by)
+                                             /\ obj'.hash = Eff(act'.P.hash, obj.dflt) /\ obj'.pad = act'.P.pad /\ obj'.enc = act'.P.enc
+                                             /\ obj' = [obj EXCEPT !.form = "sig", !.hash = obj'.hash, !.pad = obj'.pad, !.enc = obj'.enc]]_vars
+SourcesSane == /\ \A by \in Signers : SrcOf(by) # {} /\ SrcOf(by) \subseteq PwSources
+               /\ \A by \in FileSigners : \E s \in SrcOf(by) : NeedsPassword(s) /\ \E t \in SrcOf(by) : ~NeedsPassword(t)
+               /\ "prompt" \in FileSources /\ ~NeedsPassword("obj")
+ASSUME SourcesSane
 TamperIsForever == [][~obj.intact => ~obj'.intact]_vars
 ReencodeKeepsVerdict == [][act'.a = "Reencode" => obj'.hash = obj.hash /\ obj'.pad = obj.pad /\ obj'.intact = obj.intact]_vars
 Bounded == TLCGet("level") <= 5
